@@ -229,6 +229,50 @@ pub fn run(ctx: &mut Ctx) {
             extract_case(ctx, k, &id, hid, "consecutive_same_id");
         }
     }
+    // --- consecutive H1 / H2 calls on inputs of one length that differ in a single byte, at every position class:
+    // first byte, middle, byte 63 / 64 / 65, last byte (a memo keyed on a prefix, a suffix or the length alone)
+    {
+        let n = ctx.n(16, 200);
+        let mut pp = ctx.prng("near_identical_ids");
+        for i in 0..n {
+            let sub = pp.next();
+            if !ctx.mine(i) {
+                continue;
+            }
+            let mut p = Prng::new(sub, "n");
+            let len = [66usize, 70, 100, 129, 200, 33, 65, 300][(i % 8) as usize];
+            let base = p.bytes(len);
+            let hid = [1u8, 2, 3][(i % 3) as usize];
+            let mut pos: Vec<usize> = vec![0, len / 2, len - 1, len - 2];
+            for q in [31usize, 32, 63, 64, 65] {
+                if q < len {
+                    pos.push(q);
+                }
+            }
+            let mut prev = base.clone();
+            for q in pos {
+                let mut id = base.clone();
+                id[q] ^= 0x01 + (q as u8 & 0x3e);
+                for (which, m) in [("prev", &prev), ("new", &id), ("base", &base)] {
+                    ctx.eval();
+                    ctx.class("h1_near_identical_ids_consecutive");
+                    let e = r9::h1(m, hid);
+                    match guard(|| hk::hash1(m, hid)) {
+                        Outcome::Ret(v) if r9::from_limbs(&v) == e => {}
+                        o => ctx.violation(&format!("H1:near-identical-ids-consecutive:{}", if o.is_ret() { "wrong-value" } else { o.class() }), json!({"id": hx(m), "hid": hid, "differs_at": q, "which": which})),
+                    }
+                    ctx.eval();
+                    let w = [0x5au8; 40];
+                    let e2 = r9::h2(m, &w);
+                    match guard(|| hk::hash2(m, &w)) {
+                        Outcome::Ret(v) if r9::from_limbs(&v) == e2 => {}
+                        o => ctx.violation(&format!("H2:near-identical-messages-consecutive:{}", if o.is_ret() { "wrong-value" } else { o.class() }), json!({"msg": hx(m), "differs_at": q, "which": which})),
+                    }
+                }
+                prev = id;
+            }
+        }
+    }
     // --- extractions
     if ctx.shard == 0 {
         // Annex keys
